@@ -32,6 +32,27 @@ func routeByOp(op int, toks []Tok) Outcome {
 	return registry[id].Run(op, toks)
 }
 
+// runResync: payloads[:nh] is an arbitrary history, payloads[nh:] a completely delivered frame.  The
+// frame's outputs on the receiver that saw the history must equal those of a fresh receiver (C15).
+func runResync(o Outcome, nh int, payloads [][]byte, fresh func() func([]byte) ([]byte, error)) Outcome {
+	if o.Fail != "" || nh > len(payloads) {
+		return o
+	}
+	d1, d2 := fresh(), fresh()
+	for _, x := range payloads[:nh] {
+		_, _ = catch(func() { _, _ = d1(append([]byte{}, x...)) })
+	}
+	for k, x := range payloads[nh:] {
+		o1, e1 := d1(append([]byte{}, x...))
+		o2, e2 := d2(append([]byte{}, x...))
+		if (e1 == nil) != (e2 == nil) || !bytes.Equal(o1, o2) {
+			o.Fail = fmt.Sprintf("packet %d of the intact frame decodes differently after the lossy history: %x (err %v), a fresh receiver gives %x (err %v)", k, o1, e1, o2, e2)
+			break
+		}
+	}
+	return o
+}
+
 // inputs seeded with the structures the payloaders look for
 func structuredInput(c *RNG) []byte {
 	n := c.Intn(60)
@@ -66,6 +87,7 @@ func init() {
 		Gen: func(r *RNG, tier string, n int, emit func(op int, toks ...Tok)) {
 			// AV1: free packet space at the LEB128 size boundaries (the MTU bound is tightest there)
 			emitAv1LebEdges(r.Fork(808080), []int{128, 16384}, emit)
+			emitH264Extremes(r.Fork(808082), emit)
 			for i := 0; i < n; i++ {
 				c := r.Fork(uint64(i))
 				mtu := func() int64 {
@@ -101,7 +123,7 @@ func init() {
 	})
 	register(&Prop{
 		ID:       "C09",
-		Rule:     "every depacketizer (H264 Annex-B/AVC, H265 with/without DONL, VP8, VP9, AV1Depacketizer, AV1Packet+frame assembler, Opus) x sequences of 1-12 payloads on one receiver: random, nil, empty, structured headers, mutated payloader output; all byte strings of length <= 2 over a 12-symbol alphabet (quick) / <= 3 (thorough); the caller overwrites each payload after the call; reuse is compared with a fresh receiver inside the runners; non-trivial = an accepted payload",
+		Rule:     "every depacketizer (H264 Annex-B/AVC, H265 with/without DONL, VP8, VP9, AV1Depacketizer, AV1Packet+frame assembler, Opus) x sequences of 1-12 payloads on one receiver: random, nil, empty, structured headers, mutated payloader output, and every sixth case whole unmodified payloader / RFC 6184 encoder outputs of one or two frames; all byte strings of length <= 2 over a 12-symbol alphabet (quick) / <= 3 (thorough); the caller overwrites each payload after the call; reuse is compared with a fresh receiver inside the runners; non-trivial = an accepted payload",
 		Quick:    6000,
 		Thorough: 300000,
 		Gen: func(r *RNG, tier string, n int, emit func(op int, toks ...Tok)) {
@@ -135,6 +157,42 @@ func init() {
 			rec(nil)
 			for i := 0; i < n; i++ {
 				c := r.Fork(uint64(i))
+				if i%6 == 5 {
+					// whole payloader outputs (one or two frames back to back, unmodified) into one
+					// receiver: fragments continued across packets next to complete elements - the
+					// retained state is exercised while the caller overwrites every delivered buffer
+					ps := TList{}
+					mtu := c.Pick(6, 8, 10, 12, 16, 5+c.Intn(20))
+					switch c.Intn(3) {
+					case 0:
+						for f := 0; f < 1+c.Intn(2); f++ {
+							for _, pk := range (&codecs.AV1Payloader{}).Payload(uint16(mtu), encodeOBUs(genOBUs(c, mtu))) {
+								ps = append(ps, TBytes(pk))
+							}
+						}
+						if len(ps) > 0 {
+							emit(1302, ps)
+							emit(1303, ps)
+						}
+					case 1:
+						p := &codecs.H264Payloader{}
+						for f := 0; f < 1+c.Intn(2); f++ {
+							for _, pk := range p.Payload(uint16(mtu), annexB(c, genAccessUnit(c, mtu))) {
+								ps = append(ps, TBytes(pk))
+							}
+						}
+						if len(ps) > 0 {
+							emit(1002, TI(int64(c.Intn(2))), ps)
+						}
+					default:
+						pl, _ := rfc6184Encode(genRfc6184Plan(c.Fork(3)))
+						for _, pk := range pl {
+							ps = append(ps, TBytes(pk))
+						}
+						emit(1002, TI(int64(c.Intn(2))), ps)
+					}
+					continue
+				}
 				ps := TList{}
 				for k, kn := 0, 1+c.Intn(12); k < kn; k++ {
 					var b []byte
@@ -206,6 +264,14 @@ func init() {
 					p := &codecs.H264Payloader{DisableStapA: c.Bool()}
 					a = p.Payload(uint16(mtu), annexB(c, genAccessUnit(c, mtu)))
 					b = p.Payload(uint16(mtu), annexB(c, genAccessUnit(c, mtu)))
+					// a third of the frames come from the independent RFC 6184 encoder instead: FU-A runs
+					// cut anywhere, empty fragments (also as the start fragment) included
+					if c.Intn(3) == 0 {
+						a, _ = rfc6184Encode(genRfc6184Plan(c.Fork(1)))
+					}
+					if c.Intn(3) == 0 {
+						b, _ = rfc6184Encode(genRfc6184Plan(c.Fork(2)))
+					}
 				} else {
 					a = (&codecs.AV1Payloader{}).Payload(uint16(mtu), encodeOBUs(genOBUs(c, mtu)))
 					b = (&codecs.AV1Payloader{}).Payload(uint16(mtu), encodeOBUs(genOBUs(c, mtu)))
@@ -242,44 +308,12 @@ func init() {
 					for _, x := range b {
 						ps = append(ps, TBytes(x))
 					}
-					// oracle: outputs for B after the history equal those of a fresh receiver
-					fail := ""
+					// ops 1005 / 1307: the first len(hist) payloads are the lossy history, the rest is the
+					// intact frame; the runner compares the frame's outputs with a fresh receiver's
 					if isH264 {
-						d1, d2 := &codecs.H264Packet{IsAVC: avc}, &codecs.H264Packet{IsAVC: avc}
-						for _, x := range hist {
-							_, _ = d1.Unmarshal(append([]byte{}, x...))
-						}
-						for k, x := range b {
-							o1, e1 := d1.Unmarshal(append([]byte{}, x...))
-							o2, e2 := d2.Unmarshal(append([]byte{}, x...))
-							if (e1 == nil) != (e2 == nil) || !bytes.Equal(o1, o2) {
-								fail = fmt.Sprintf("packet %d of the intact frame decodes differently after the lossy history", k)
-								break
-							}
-						}
-						line := CaseLine(1002, TI(b2i(avc)), ps)
-						if fail != "" {
-							pendingFailures = append(pendingFailures, pendingFailure{line, fail, ""})
-						}
-						emit(1002, TI(b2i(avc)), ps)
+						emit(1005, TI(b2i(avc)), TI(int64(len(hist))), ps)
 					} else {
-						d1, d2 := &codecs.AV1Depacketizer{}, &codecs.AV1Depacketizer{}
-						for _, x := range hist {
-							_, _ = d1.Unmarshal(append([]byte{}, x...))
-						}
-						for k, x := range b {
-							o1, e1 := d1.Unmarshal(append([]byte{}, x...))
-							o2, e2 := d2.Unmarshal(append([]byte{}, x...))
-							if (e1 == nil) != (e2 == nil) || !bytes.Equal(o1, o2) {
-								fail = fmt.Sprintf("packet %d of the intact frame decodes differently after the lossy history", k)
-								break
-							}
-						}
-						line := CaseLine(1302, ps)
-						if fail != "" {
-							pendingFailures = append(pendingFailures, pendingFailure{line, fail, ""})
-						}
-						emit(1302, ps)
+						emit(1307, TI(int64(len(hist))), ps)
 					}
 				}
 			}
